@@ -160,8 +160,15 @@ Proof.
   intros c1 _. cbv beta. go.
 Qed.
 
+Lemma consume_decl_loop_sh : forall fuel s,
+  rsimf shs (consume_decl_loop text fuel s) (consume_decl_loop text2 fuel (shs s)).
+Proof.
+  induction fuel as [|fu IH]; intros s; cbn [consume_decl_loop]; [reflexivity|].
+  cbv zeta. repeat rs ltac:(first [apply IH]).
+Qed.
+
 Lemma consume_decl_sh s : rsimf shs (consume_decl text s) (consume_decl text2 (shs s)).
-Proof. unfold consume_decl. cbv zeta. go. Qed.
+Proof. unfold consume_decl. sync. apply consume_decl_loop_sh. Qed.
 
 Lemma parse_doctype_start_sh s :
   rsimf shs (parse_doctype_start text s) (parse_doctype_start text2 (shs s)).
@@ -183,7 +190,7 @@ Proof.
   { go. }
   destruct (_ || _).
   { pose proof (consume_decl_sh (skip_spaces s)) as H.
-    destruct (consume_decl text (skip_spaces s)); cbn in H.
+    destruct (consume_decl text (skip_spaces s)); cbn -[consume_decl] in H.
     - rewrite H. apply IH.
     - destruct H as [e' ->]. base.
     - rewrite H. reflexivity.
